@@ -1,5 +1,187 @@
-import Bkl
+/-
+  C15 — "bkld round trip: base + bkld(base, target) evaluates to target".
+
+  `diff target base` (Bkl/Tools.lean, mirrors cmd/bkld/diff.go) computes a patch layer;
+  layering it over `base` with bkl's own `merge` gives back `target`.
+
+  Input domain (BklProofs/Lemmas/Tools.lean):
+    `plainVal v` — `v` is well-formed (`Val.wfB`), contains no `.null`, and is `$`-free: no map
+                   key and no string leaf starts with `$` (`dollarFree`, stated on `String.toList`).
+  Only the *target* has to be plain; the base only has to be well-formed (so the base may
+  contain `$required` markers — this is what C16_lossless uses).
+
+  Property theorems only; helper lemmas are in BklProofs/Lemmas/{Tools,ToolsDiff}.lean.
+-/
+import BklProofs.Lemmas.ToolsDiff
 namespace Bkl
-/-- placeholder until the property theorems land -/
-theorem C15_placeholder : validate (.int 1) = .ok () := by simp [validate]; rfl
+
+/-! ### the shared witnesses `C15_target`, `C15_base`, `C15_base2` are in Lemmas/ToolsDiff.lean -/
+
+/-- what bkld emits for the witnesses (every branch of `diff` for maps is exercised) -/
+example : diffDoc C15_target C15_base = some (.map
+    [("$match", .map []), ("a", .int 1), ("gone", .str "$delete"),
+     ("l", .list [.str "x", .map [("n", .int 1)], .map [("$replace", .bool true)]]),
+     ("m", .map [("p", .str "q"), ("s", .str "$delete")]), ("new", .bool false)]) := by decide
+
+example : diffDoc C15_target C15_base2 = some (.map
+    [("$match", .map []), ("$replace", .bool true), ("a", .int 1),
+     ("l", .list [.str "x", .map [("n", .int 1)]]),
+     ("m", .map [("p", .str "q"), ("r", .flt "1.5")]), ("new", .bool false)]) := by decide
+
+/-! ## 1. the heart: `diff` keeps its promise at every position -/
+
+/-- For a plain `target` and a well-formed `base` (in particular: a plain base):
+    * `same`          — the two are equal;
+    * `patch p`       — bkl accepts `p` over `base` and the result is `target`;
+    * `replaceParent` — `base` is a non-empty map or a list and `target` is of another kind:
+                        no patch at this position can work, the enclosing map is replaced. -/
+theorem C15_roundtrip_core (target base : Val) (ht : plainVal target = true)
+    (hb : Val.WF base) :
+    match diff target base with
+    | .same => target = base
+    | .patch p => merge base p = .ok target
+    | .replaceParent =>
+      replaceable base = false ∧ (target.isMap && base.isMap) = false ∧
+        (target.isList && base.isList) = false := by
+  have h := diff_spec target base ht hb
+  cases hd : diff target base <;> (rw [hd] at h; exact h)
+
+example : plainVal C15_target = true ∧ Val.WF C15_base := by decide
+
+/-- `replaceParent` is returned exactly when the base cannot be overridden by a value of
+    another kind and the target is of another kind (no hypotheses needed). -/
+theorem C15_replaceParent_iff (target base : Val) :
+    diff target base = .replaceParent ↔
+      (replaceable base = false ∧ (target.isMap && base.isMap) = false ∧
+        (target.isList && base.isList) = false) :=
+  diff_replaceParent_iff target base
+
+example : replaceable (.list [.int 1]) = false ∧
+    ((Val.map [("p", .str "q")]).isMap && (Val.list [.int 1]).isMap) = false ∧
+    ((Val.map [("p", .str "q")]).isList && (Val.list [.int 1]).isList) = false := by decide
+
+/-! ## 2. whole documents -/
+
+/-- Map-rooted documents: either nothing is emitted and the documents are equal, or the emitted
+    layer is a map carrying the document selector `$match: {}`; what the parser merges into the
+    base — the layer without its `$match` entry (`mergeDocument`, Bkl/Parser.lean) — is accepted
+    by `merge` and yields the target.  The base needs no `$match` key of its own
+    (true of every plain base, `C15_roundtrip`). -/
+theorem C15_roundtrip_wf_base (t b : Fields) (ht : plainVal (.map t) = true)
+    (hb : Val.WF (.map b)) (hbm : fget b "$match" = none) :
+    match diffDoc (.map t) (.map b) with
+    | none => Val.map t = Val.map b
+    | some layer => ∃ m, layer = .map m ∧ fget m "$match" = some (.map []) ∧
+        merge (.map b) (.map (fdel m "$match")) = .ok (.map t) := by
+  have hspec := diff_spec (.map t) (.map b) ht hb
+  have hs := (wf_map_iff.1 hb).1
+  rcases diff_map_map_cases t b with h | ⟨m, h⟩
+  · rw [diffDoc_same h]
+    rw [h] at hspec
+    exact hspec
+  · have hd : diffDoc (.map t) (.map b) = some (.map (fset m "$match" (.map []))) := by
+      unfold diffDoc; rw [h]
+    rw [hd]
+    rw [h] at hspec
+    refine ⟨_, rfl, fget_fset_same _ _ _, ?_⟩
+    rw [fdel_fset_of_none (sorted_of_diff_patch (plainVal_sorted ht) h) _
+      (diff_map_map_no_match ht hs hbm h)]
+    exact hspec
+
+example : plainVal (.map [("a", .int 1)]) = true ∧ Val.WF (.map [("a", .str "$required")]) ∧
+    fget [("a", Val.str "$required")] "$match" = none := by decide
+
+/-- the hypothesis on `$match` cannot be dropped: if only the base has a `$match` key, the
+    `"$match": "$delete"` entry of the patch is overwritten by the document selector, so the
+    body that the parser merges is empty and the base keeps its `$match` key -/
+example : Val.WF (.map [("$match", .int 1), ("a", .int 1)]) ∧
+    diffDoc (.map [("a", .int 1)]) (.map [("$match", .int 1), ("a", .int 1)])
+      = some (.map [("$match", .map [])]) := by decide
+
+/-- the round trip for plain map-rooted target and base -/
+theorem C15_roundtrip (t b : Fields) (ht : plainVal (.map t) = true)
+    (hb : plainVal (.map b) = true) :
+    match diffDoc (.map t) (.map b) with
+    | none => Val.map t = Val.map b
+    | some layer => ∃ m, layer = .map m ∧ fget m "$match" = some (.map []) ∧
+        merge (.map b) (.map (fdel m "$match")) = .ok (.map t) :=
+  C15_roundtrip_wf_base t b ht (plainVal_wf hb) (plainVal_fget_dollar hb (by decide))
+
+example : (∃ t, C15_target = .map t) ∧ (∃ b, C15_base = .map b) ∧
+    plainVal C15_target = true ∧ plainVal C15_base = true :=
+  ⟨⟨_, rfl⟩, ⟨_, rfl⟩, by decide, by decide⟩
+
+/-- The same through the parser (`mergeDocument`, Bkl/Parser.lean): the parser holds the single
+    document `B = base`; the emitted layer, read as document `L` with parent `B`, selects `B`
+    by its `$match: {}` and is merged into it.  Afterwards the only document is `target`. -/
+theorem C15_roundtrip_parser (t b : Fields) (layer : Val) (ht : plainVal (.map t) = true)
+    (hb : plainVal (.map b) = true) (hl : diffDoc (.map t) (.map b) = some layer) :
+    ∃ st', mergeDocument { docs := [("B", .map b)], known := [("B", [])] }
+        { id := "L", parents := ["B"], data := layer } = .ok st' ∧
+      st'.docs = [("B", .map t)] := by
+  have h := C15_roundtrip t b ht hb
+  rw [hl] at h
+  obtain ⟨m, rfl, hm, hmerge⟩ := h
+  exact ⟨_, mergeDocument_single b m _ hm (plainVal_not_placeholder hb) hmerge, rfl⟩
+
+example : plainVal C15_target = true ∧ plainVal C15_base = true ∧
+    (diffDoc C15_target C15_base).isSome = true := by decide
+
+/-- for map-rooted documents bkld never fails with `errReplaceParent` -/
+theorem C15_doc_never_replaceParent (t b : Fields) :
+    diff (.map t) (.map b) ≠ .replaceParent := by
+  intro h
+  rcases diff_map_map_cases t b with h' | ⟨m, h'⟩ <;> (rw [h'] at h; cases h)
+
+/-! ## 3. equal data: the emitted layer is empty -/
+
+/-- when base and target are the same data nothing is emitted -/
+theorem C15_empty_when_equal (v : Val) (hv : Val.WF v) :
+    diff v v = .same ∧ diffDoc v v = none :=
+  ⟨diff_self v hv, diffDoc_same (diff_self v hv)⟩
+
+example : Val.WF C15_target := by decide
+
+/-- well-formedness cannot be dropped: with a duplicated key the loop compares the second
+    entry against the first one -/
+example : diffDoc (.map [("k", .int 1), ("k", .int 2)]) (.map [("k", .int 1), ("k", .int 2)])
+    = some (.map [("$match", .map []), ("k", .int 2)]) := by decide
+
+/-- for a plain target `diff` answers `same` exactly when the data are equal -/
+theorem C15_same_iff (t b : Val) (ht : plainVal t = true) (hb : Val.WF b) :
+    diff t b = .same ↔ t = b := by
+  constructor
+  · intro h
+    have hspec := diff_spec t b ht hb
+    rw [h] at hspec
+    exact hspec
+  · rintro rfl
+    exact diff_self t hb
+
+example : plainVal C15_target = true ∧ Val.WF C15_base := by decide
+
+/-! ## 4. the `$delete` entries of a list patch find their entry -/
+
+/-- A `{$delete: e}` entry for an entry `e` of a plain base list is never rejected as a useless
+    override: `e` matches itself (`matchV_refl_plain`), and exactly the entries matching `e`
+    are removed. -/
+theorem C15_delete_entry_accepted (src : List Val) (e : Val) (hs : plainVal (.list src) = true)
+    (he : e ∈ src) :
+    merge (.list src) (.list [.map [("$delete", e)]]) =
+      .ok (.list (src.filter (fun v => !matchV v e))) := by
+  have hfil : src.filter (fun x => !(x == Val.str "$required")) = src := by
+    rw [List.filter_eq_self]
+    intro x hx
+    have := plainVal_ne_str_dollar (plainVal_list_iff.1 hs x hx)
+      (show dollarFree "$required" = false by decide)
+    simpa using this
+  have hany : src.any (fun v => matchV v e) = true := by
+    rw [List.any_eq_true]
+    exact ⟨e, he, matchV_refl_plain e (plainVal_list_iff.1 hs e he)⟩
+  rw [C01_list_delete, hfil, hany]
+  rfl
+
+example : plainVal (.list [.map [("n", .int 1)], .str "x"]) = true ∧
+    Val.map [("n", .int 1)] ∈ [Val.map [("n", .int 1)], .str "x"] := by decide
+
 end Bkl
